@@ -650,7 +650,14 @@ class StmtMixin:
             self.path.assume(z3.BoolVal(True))
             raise self.E.Raised(out, node)
         tag = f"{c.name}@L{getattr(node, 'lineno', 0)}"
-        res = self.fresh_value(c.returns, "ret:" + tag) if c.returns is not None else VNone()
+        if c.returns is not None and c.returns.name in ("Ref", "ListRef"):
+            # a reference result may be None unless the callee's postcondition (proved there) excludes it
+            cls = c.returns.args[0] if c.returns.name == "Ref" else "list"
+            res = self.heap.fresh_ref("ret:" + tag, cls, maybe_none=True)
+            if c.returns.name == "ListRef":
+                res.elem = c.returns.args[0]
+        else:
+            res = self.fresh_value(c.returns, "ret:" + tag) if c.returns is not None else VNone()
         renv = self.E.Env(parent=cenv)
         renv.vars["result"] = res
         for cl in c.ensures:
